@@ -365,6 +365,8 @@ pub struct Store {
     pub horizon_hit: bool,
     /// a write happened since the last flush (memtable non-empty)
     pub dirty: bool,
+    /// (key, is_tombstone) of every entry written since the memtable was last emptied, in order
+    pub mem_entries: Vec<(Vec<u8>, bool)>,
 }
 
 fn big_value(step: usize) -> Vec<u8> {
@@ -394,6 +396,7 @@ impl Store {
             n_verify: 0,
             horizon_hit: false,
             dirty: false,
+            mem_entries: vec![],
         })
     }
 
@@ -470,6 +473,7 @@ impl Store {
                     Ok(Ok(())) => {
                         self.model.insert(KEYS[*k].to_vec(), Some(v));
                         self.dirty = true;
+                        self.mem_entries.push((KEYS[*k].to_vec(), false));
                         StepResult::Ok
                     }
                 }
@@ -480,6 +484,7 @@ impl Store {
                 Ok(Ok(())) => {
                     self.model.insert(KEYS[*k].to_vec(), None);
                     self.dirty = true;
+                    self.mem_entries.push((KEYS[*k].to_vec(), true));
                     StepResult::Ok
                 }
             },
@@ -505,6 +510,8 @@ impl Store {
                         self.model.insert(p.to_vec(), Some(v));
                         self.model.insert(d.to_vec(), None);
                         self.dirty = true;
+                        self.mem_entries.push((p.to_vec(), false));
+                        self.mem_entries.push((d.to_vec(), true));
                         StepResult::Ok
                     }
                 }
@@ -522,6 +529,7 @@ impl Store {
                     Ok(true) => {
                         self.n_flush += 1;
                         self.dirty = false;
+                        self.mem_entries.clear();
                         StepResult::Ok
                     }
                 }
@@ -567,6 +575,7 @@ impl Store {
                         self.kvs = Some(Box::leak(Box::new(k)));
                         self.n_reopen += 1;
                         self.dirty = false;
+                        self.mem_entries.clear();
                         StepResult::Ok
                     }
                 }
@@ -688,6 +697,35 @@ impl Store {
             vcore::stable_hash(&(&shape, imm, memsz > 0, &model, &cursors)),
             vcore::stable_hash(&occupancy),
         )
+    }
+
+    /// Everything a scan or point read can depend on, up to renaming of values and order-
+    /// preserving renaming of timestamps: per component (each L0 file in level order, each
+    /// deeper level's files, the memtable) the entries as (key, timestamp rank, tombstone?).
+    /// Two states with the same read signature answer every read program identically.
+    pub fn read_signature(&self) -> Result<u64, String> {
+        let levels = self.kvs().verif_tree().verif_levels();
+        let mut comps: Vec<(usize, Vec<(Vec<u8>, u64, bool)>)> = vec![];
+        let mut all_ts: BTreeSet<u64> = BTreeSet::new();
+        for (li, l) in levels.iter().enumerate() {
+            for m in l.iter() {
+                let setsum = setsum::Setsum::from_digest(m.setsum);
+                let path = lsmtk::SST_FILE(&self.dir, setsum);
+                let es = dump_sst(&path)?;
+                for e in es.iter() {
+                    all_ts.insert(e.ts);
+                }
+                comps.push((li, es.into_iter().map(|e| (e.key, e.ts, e.value.is_none())).collect()));
+            }
+        }
+        let rank: BTreeMap<u64, u64> = all_ts.iter().enumerate().map(|(i, t)| (*t, i as u64)).collect();
+        let comps: Vec<(usize, Vec<(Vec<u8>, u64, bool)>)> = comps
+            .into_iter()
+            .map(|(l, es)| (l, es.into_iter().map(|(k, t, d)| (k, rank[&t], d)).collect()))
+            .collect();
+        let (imm, _, _, _, _) = self.kvs().verif_mem_state();
+        let model: Vec<(&Vec<u8>, bool)> = self.model.iter().map(|(k, v)| (k, v.is_some())).collect();
+        Ok(vcore::stable_hash(&(&comps, &self.mem_entries, imm, &model)))
     }
 
     pub fn describe_tree(&self) -> String {
